@@ -4,6 +4,7 @@ import StamModel.Driver.U8
 import StamModel.Driver.Find
 import StamModel.Driver.Txt
 import StamModel.Driver.St
+import StamModel.Driver.Tv
 /-
   Line-protocol driver: one request per line on stdin, one answer per line on stdout.
   Built as the `stamdriver` executable (core Lean only).
@@ -19,6 +20,7 @@ def step (line : String) : String :=
   | "find" :: args => findCmd args
   | "txt" :: args => txt args
   | "dv" :: args => dv args
+  | "tv" :: args => tv args
   | ["reset"] => "ok"
   | _ => "bad-op"
 
